@@ -370,15 +370,13 @@ Lemma target_string_open r : target_string (x5b :: r) = PErr.
 Proof. reflexivity. Qed.
 
 Lemma target_list_rest_rt : forall dst ts fuel close rest, Forall wf_target dst -> (length dst < fuel)%nat ->
-  target_list_rest fuel (more_targets ts dst ++ blanks close ++ x5d :: rest) = POk dst (blanks close ++ x5d :: rest).
+  target_list_rest fuel (more_targets ts dst ++ wbytes close ++ x5d :: rest) = POk dst (wbytes close ++ x5d :: rest).
 Proof.
   induction dst as [|t dst IH]; intros ts fuel close rest Hw Hf; (destruct fuel as [|f]; [lia|]).
-  - cbn [more_targets app target_list_rest]. destruct close as [|b close].
-    + reflexivity.
-    + change (blanks (b :: close)) with (blanks1 (b, close)).
-      rewrite space1_app by reflexivity. rewrite target_string_bracket. reflexivity.
+  - cbn [more_targets app target_list_rest]. rewrite multispace0_app by reflexivity.
+    rewrite target_string_bracket. reflexivity.
   - inversion Hw as [|? ? H1 H2]; subst. cbn [more_targets]. rewrite <- !app_assoc. cbn [target_list_rest].
-    rewrite space1_app by reflexivity.
+    rewrite multispace0_app by reflexivity.
     rewrite target_string_rt by exact H1.
     rewrite IH by (try exact H2; cbn [length] in Hf; lia). reflexivity.
 Qed.
@@ -386,7 +384,7 @@ Qed.
 Lemma more_targets_len : forall dst ts r, (length dst <= length (more_targets ts dst ++ r))%nat.
 Proof.
   induction dst as [|t dst IH]; intros ts r; [cbn; lia|].
-  cbn [more_targets length]. rewrite <- !app_assoc. unfold blanks1. cbn [app length].
+  cbn [more_targets length]. rewrite <- !app_assoc.
   pose proof (IH (tl ts) r). pose proof (target_text_len (snd (hd tgt_default ts)) t).
   rewrite !app_length in *. lia.
 Qed.
@@ -397,10 +395,10 @@ Proof.
   intros Hn Hw. destruct dst as [|t dst]; [congruence|]. inversion Hw as [|? ? H1 H2]; subst.
   unfold array_text. rewrite <- !app_assoc. cbn [app]. unfold range_target_array.
   rewrite tag_cons. cbn [pbind].
-  rewrite space0_app by reflexivity.
+  rewrite multispace0_app by reflexivity.
   rewrite target_string_rt by exact H1. cbn [pbind].
-  rewrite target_list_rest_rt by (try exact H2; pose proof (more_targets_len dst (tl (l_tgts y)) (blanks (l_close y) ++ x5d :: rest)); lia).
-  cbn [pbind]. rewrite space0_app by reflexivity. rewrite tag_cons. reflexivity.
+  rewrite target_list_rest_rt by (try exact H2; pose proof (more_targets_len dst (tl (l_tgts y)) (wbytes (l_close y) ++ x5d :: rest)); lia).
+  cbn [pbind]. rewrite multispace0_app by reflexivity. rewrite tag_cons. reflexivity.
 Qed.
 
 Lemma bf_range_line_rt y x rest : wf_bfrange_line x -> head_is solid rest ->
